@@ -1334,12 +1334,21 @@ def check_C10(ctx):
             al, ac, aconv = split_conv(am); el, ec, econv = split_conv(em)
             f1 = em != ""; f2 = not (at == str(a) or at in ("true", "false")); f3 = "not " not in name
             ev = 0 if kind in ("null", "nonnull", "true", "false") else e
-            probe_lines.append(f"msgint {kind} {hexs(at.encode())} {hexs(et.encode())} {a} {e}")
+            via_mock = rng.random() < 0.25
+            if via_mock: at = "[p] parameter in [mocked_i]"; f2 = True
+            probe_lines.append(f"{'mckint' if via_mock else 'msgint'} {kind} {hexs(at.encode())} {hexs(et.encode())} {a} {e}")
             model_lines.append(" ".join(["msg", str(int(f1)), str(int(f2)), str(int(f3))] + [hexs(x.encode()) for x in (name, al, ac, el, ec, at, et, render_val(a, aconv), render_val(ev, econv))]))
             meta.append(("int", at, et if f1 else None, str(a) if (f1 and f2 and aconv == "ld") else None, str(ev) if (f1 and f2 and f3 and econv == "ld") else None))
         else:
             kind = rng.choice(list(ctors_str))
             av, evs = gen_text(rng, 20), gen_text(rng, 20)
+            if rng.random() < 0.08:      # long strings and texts: the message buffer is sized from them
+                av = gen_text(rng, 1) + "A" * rng.choice([300, 600, 1000, 3000]) + gen_text(rng, 6)
+                if rng.random() < 0.5: evs = "E" * rng.choice([300, 1000, 3000]) + gen_text(rng, 6)
+                if rng.random() < 0.3: et = "t" * rng.choice([300, 1000]) + gen_text(rng, 6)
+                if rng.random() < 0.3: at = "a" * rng.choice([300, 1000]) + gen_text(rng, 6)
+            via_mock = rng.random() < 0.25
+            if via_mock: at = "[p] parameter in [mocked_s]"
             ctor = ctors_str[kind]
             name = fld[(ctor, "name")]
             em = fld.get((ctor, "expected_value_message"), d_exp)
@@ -1347,7 +1356,7 @@ def check_C10(ctx):
             am = arr.get("actual_value_string_format", "\n\t\tactual value:\t\t\t[\"%s\"]")
             al, ac, _ = split_conv(am)
             f3 = not ("not " in name and "equal " in name)
-            probe_lines.append(f"msgstr {kind} {hexs(at.encode())} {hexs(et.encode())} {hexs(av.encode())} {hexs(evs.encode())}")
+            probe_lines.append(f"{'mckstr' if via_mock else 'msgstr'} {kind} {hexs(at.encode())} {hexs(et.encode())} {hexs(av.encode())} {hexs(evs.encode())}")
             f2 = not (at in ("true", "false") or re.fullmatch(r"-?\d+", at or "x") is not None)
             model_lines.append(" ".join(["msg", "1", str(int(f2)), str(int(f3))] + [hexs(x.encode()) for x in (name, al, ac, el, ec, at, et, av, evs)]))
             meta.append(("str", at, et, av if f2 else None, evs if (f2 and f3) else None))
